@@ -23,6 +23,7 @@ META = {
                     "answers delayed between 2h-2.1 and 2h+2 s, periodic traffic slower than h-1.1 without answers, and sessions that are not ACTIVE are unspecified, except that an inbound TestRequest, the echo of an outstanding TestReqID and a wrong TestReqID are also judged when they arrive numbered ahead of an open gap"],
 }
 REQUIRED_ORACLES = ["silent:testrequest-time", "silent:disconnect-time", "live:survives", "echo:testreqid", "one-outstanding", "wrong-id:logout"]
+REQUIRED_COUNTERS = ["probe_writes_refused"]
 NSHARDS = 16
 HB = {"quick": [1, 2, 3, 5, 10, 30], "thorough": [1, 2, 3, 4, 5, 6, 7, 8, 9, 10, 11, 12, 15, 20, 30, 45, 60]}
 PHASES = {"quick": [0.0, 0.25, 0.5, 0.9], "thorough": [0.0, 0.1, 0.2, 0.3, 0.4, 0.5, 0.6, 0.7, 0.8, 0.95]}
